@@ -132,9 +132,9 @@ func propSuppression(c *Case) {
 		w.attach()
 
 		var (
-			lastFailErr error
-			lastFailAt  time.Time
-			invocations int
+			lastFailErr                    error
+			lastFailAt                     time.Time
+			invocations                    int
 			inWindowSeen, afterWindowBuild bool
 		)
 
